@@ -26,12 +26,13 @@ TYPES = {
     "dbits": 1, "fbits": 1, "cdouble": 2, "fv_d3": 3, "fv_i1": 1, "fv_c3": 3, "big64": 1, "big100": 1, "pr_id": 2, "pr_cl": 2,
     "pli": 4, "ip": 5,
     # pairs whose members have no intrinsic MPI type (shipped as raw bytes: alignment 1 for MPI) and padding; more digit counts / dimensions
+    "uint": 1, "ushort": 1, "cfloat": 2, "cldouble": 2,
     "pr_li": 2, "pr_il": 2, "pr_pc": 3, "pr_cp": 3, "pr_ed": 2, "pr_n": 3, "big16": 1, "big17": 1, "big55": 1, "fv_d2": 2, "fv_l5": 5,
 }
 MASK = {t: "1" * n for t, n in TYPES.items()}
 MASK["pli"] = "0100"; MASK["ip"] = "10100"
 FULL = [t for t in TYPES if t not in ("pli", "ip")]
-INTRINSIC_ARITH = ["int", "long", "uchar", "char", "short", "ulong", "float", "double", "ldouble"]
+INTRINSIC_ARITH = ["int", "long", "uchar", "char", "short", "ulong", "float", "double", "ldouble", "uint", "ushort"]
 ALIAS = {"dbits": "double", "fbits": "float"}
 STATIC_RANGE = ["fv_d3", "fv_i1", "fv_c3", "fv_d2", "fv_l5"]     # types with data()/size() but no resize(): MPIData describes them as n x K
 
@@ -65,6 +66,10 @@ def elem_any(rng, ty):
         return [str(lo) if hi == 0 else "%d.%d" % (hi, lo)]
     if ty == "pr_id": return [elem_any(r, "int")[0], elem_any(r, "double")[0]]
     if ty == "pr_cl": return [elem_any(r, "char")[0], elem_any(r, "long")[0]]
+    if ty == "uint": return [pick(r, [0, 1, 2 ** 32 - 1, 2 ** 31, 2 ** 31 - 1], 0, 2 ** 32)]
+    if ty == "ushort": return [pick(r, [0, 1, 65535, 32768, 32767], 0, 65536)]
+    if ty == "cfloat": return [elem_any(r, "float")[0], elem_any(r, "float")[0]]
+    if ty == "cldouble": return [elem_any(r, "ldouble")[0], elem_any(r, "ldouble")[0]]
     if ty == "pr_li": return [elem_any(r, "long")[0], elem_any(r, "int")[0]]
     if ty == "pr_il": return [elem_any(r, "int")[0], elem_any(r, "long")[0]]
     if ty == "pr_pc": return [elem_any(r, "double")[0], elem_any(r, "double")[0], elem_any(r, "char")[0]]
@@ -82,7 +87,7 @@ def elem_any(rng, ty):
 
 def elem_small(rng, ty, bound):
     n = TYPES[ty]
-    lo = 0 if ty in ("uchar", "ulong", "big64", "big100") else -bound
+    lo = 0 if ty in ("uchar", "ulong", "big64", "big100", "uint", "ushort") else -bound
     return [rng.randrange(lo, bound + 1) for _ in range(n)]
 
 
@@ -92,16 +97,27 @@ def sh_bufs(bs): return ";".join(sh_buf(b) for b in bs)
 def sh_ints(l): return ",".join(map(str, l)) if l else "-"
 
 
+def toks(case):
+    """tokens of a case line without the communicator selector (@dup / @rev / @self)"""
+    t = case.split()
+    return t[1:] if t and t[0].startswith("@") else t
+
+
+def comm_of(case):
+    t = case.split()
+    return t[0] if t and t[0].startswith("@") else "@world"
+
+
 def coll_line(comm, op, fn, ty, P, root, ln, lens, displs, ins, outs):
     return "coll %s %s %s %s %s %d %d %d %s %s %s %s" % (comm, op, fn, ty, MASK[ty], P, root, ln, sh_ints(lens), sh_ints(displs), sh_bufs(ins), sh_bufs(outs))
 
 
 # which reductions a type supports (mirrors OpsOf in the harness); value bound keeps every partial result exactly representable
-SUM_T = {"int": 10 ** 6, "long": 10 ** 12, "uchar": 20, "char": 10, "short": 1000, "ulong": 10 ** 12, "llong": 10 ** 12, "float": 1000, "double": 10 ** 9,
+SUM_T = {"uint": 10 ** 6, "ushort": 1000, "cfloat": 1000, "cldouble": 10 ** 6, "int": 10 ** 6, "long": 10 ** 12, "uchar": 20, "char": 10, "short": 1000, "ulong": 10 ** 12, "llong": 10 ** 12, "float": 1000, "double": 10 ** 9,
          "ldouble": 10 ** 12, "cdouble": 10 ** 6, "fv_d3": 10 ** 6, "fv_i1": 10 ** 6, "fv_c3": 10, "big64": 10 ** 12, "big100": 10 ** 12}
-PROD_T = {"int": 30, "long": 1000, "uchar": 2, "short": 5, "ulong": 1000, "llong": 1000, "float": 8, "double": 100, "ldouble": 1000, "cdouble": 5}
-ORD_T = ["int", "long", "uchar", "char", "short", "ulong", "llong", "float", "double", "ldouble", "big64"]
-XOR_T = ["int", "long", "uchar", "short", "ulong", "llong", "big64"]
+PROD_T = {"uint": 30, "ushort": 5, "cfloat": 3, "cldouble": 5, "int": 30, "long": 1000, "uchar": 2, "short": 5, "ulong": 1000, "llong": 1000, "float": 8, "double": 100, "ldouble": 1000, "cdouble": 5}
+ORD_T = ["uint", "ushort", "int", "long", "uchar", "char", "short", "ulong", "llong", "float", "double", "ldouble", "big64"]
+XOR_T = ["uint", "ushort", "int", "long", "uchar", "short", "ulong", "llong", "big64"]
 
 
 def red_elem(rng, ty, fn):
@@ -173,6 +189,14 @@ def gen_coll(ctx, comm, P, N):
                         + ([] if seq else ["igatherV", "iscatterV", "iallgatherV"]))
         ln = rng.choice([0, 1, 1, 2, 3, 4, 17] if rng.random() < 0.3 else [0, 1, 1, 2, 3, 4])
         ex = rng.choice([0, 0, 1, 2])
+        if seq and op in ("gather", "scatter", "allgather", "gatherv", "allgatherv", "scatterv") and rng.random() < 0.2:
+            # exact aliasing: the send buffer IS the receive buffer (displacement 0): the buffer must come back unchanged
+            b = buf(ty, ln + ex)
+            if op in ("gather", "scatter", "allgather"):
+                cases.append(coll_line(comm, op, "alias", ty, P, 0, ln, [], [], [b], [b]))
+            else:
+                cases.append(coll_line(comm, op, "alias", ty, P, 0, 0, [ln], [0], [b], [b]))
+            continue
         if op == "bcast":
             io = [buf(ty, ln + ex) for _ in range(P)]
             cases.append(coll_line(comm, op, "-", ty, P, root, ln, [], [], io, io))
@@ -232,12 +256,14 @@ def gen_p2p(ctx, N):
     rng = ctx.rng("p2p")
     cases = []
     for it in range(N):
-        op = rng.choice(["rrecv", "rrecv", "rrecv_lv", "recv", "isend_irecv", "scalar", "rrecv_str", "rrecv_pack"])
+        op = rng.choice(["rrecv", "rrecv", "rrecv_lv", "recv", "isend_irecv", "scalar", "rrecv_str", "rrecv_pack",
+                         "rrecv_twice", "rrecv_twice", "rrecv_status", "recv_status", "irecv0"])
         ty = rng.choice(list(TYPES))
         n = rng.choice([0, 1, 2, 3, 17]); m = rng.choice([0, 1, 2, 5])
         if op == "rrecv_str": ty = "char"
         if op == "rrecv_pack": ty = rng.choice(FULL); m = rng.choice([0, 1])
-        if op in ("recv", "isend_irecv"): m = n + rng.choice([0, 1, 2])
+        if op in ("recv", "isend_irecv", "recv_status"): m = n + rng.choice([0, 1, 2])
+        if op in ("rrecv_status", "recv_status", "irecv0"): ty = rng.choice(FULL)
         if op == "isend_irecv": m = max(m, 1)
         if op == "scalar": n = 1; m = rng.choice([1, 2])
         sent = [elem_any(rng, ty) for _ in range(n)]; pre = [elem_any(rng, ty) for _ in range(m)]
@@ -306,9 +332,17 @@ def gen_pks(ctx, table, N):
         ty = ty or rng.choice(dyn if d else tys)
         n = (rng.choice([0, 1, 2, 4]) if n is None else n) if d else 1
         return {"d": d, "ty": ty, "n": n, "hex": rbytes(rng, table[ty]["sizeof"] * n).hex() or "_"}
-    def tok(it): return "%s|%s|%s" % ("d" if it["d"] else "s", it["ty"], it["hex"])
-    def size(it): return (4 if it["d"] else 0) + it["n"] * table[it["ty"]]["packsize"]
-    def rtok(it): return "r|%s|%s|%s" % ("d" if it["d"] else "s", it["ty"], masked_expect(table, it["ty"], it["hex"], it["d"]))
+    def tok(it):
+        if it.get("q"): return "q|%s" % it["hex"]
+        return "%s|%s|%s" % ("d" if it["d"] else "s", it["ty"], it["hex"])
+    def size(it):
+        if it.get("q"): return 4 + (0 if it["hex"] == "_" else len(it["hex"]) // 2)
+        return (4 if it["d"] else 0) + it["n"] * table[it["ty"]]["packsize"]
+    def rtok(it):
+        if it.get("q"): return "u|%s" % it["hex"]
+        return "r|%s|%s|%s" % ("d" if it["d"] else "s", it["ty"], masked_expect(table, it["ty"], it["hex"], it["d"]))
+    def qitem():
+        return {"q": True, "hex": rbytes(rng, rng.choice([0, 1, 3, 8])).hex() or "_"}
     cases = []
     for c in range(N):
         kind = rng.choice(["slot", "slot", "count", "raw"])
@@ -320,13 +354,15 @@ def gen_pks(ctx, table, N):
             ops = ["s|int|00000000"] + [tok(i) for i in its] + ["k|0", tok(cnt), "k|end"]
             slots = [cnt] + its
         elif kind == "slot":
-            k = rng.choice([1, 2, 3, 4, 5]); slots = [item() for _ in range(k)]
+            k = rng.choice([1, 2, 3, 4, 5]); slots = [(qitem() if rng.random() < 0.15 else item()) for _ in range(k)]
             ops = [tok(i) for i in slots]
             for _ in range(rng.choice([1, 1, 2, 3])):
                 j = rng.choice([0, k - 1, rng.randrange(k)])
                 off = sum(size(i) for i in slots[:j])
                 old = slots[j]
-                if j == k - 1 and old["d"] and rng.random() < 0.6:
+                if old.get("q"):
+                    new = {"q": True, "hex": rbytes(rng, len(old["hex"]) // 2).hex() if old["hex"] != "_" else "_"}
+                elif j == k - 1 and old["d"] and rng.random() < 0.6:
                     new = item(old["ty"], True, rng.choice([0, 1, 2, 4, 6]))     # last slot: shorter / equal / beyond the end
                 else:
                     new = item(old["ty"], old["d"], old["n"])                    # same size: overwrite in place
@@ -352,6 +388,11 @@ def gen_pks(ctx, table, N):
                 elif z < 0.3:
                     n = rng.choice([0, 1, 3]); ops.append("g|%d" % n); sz += n
             ops.append(rng.choice(["k|end", "k|0"]))
+        if rng.random() < 0.25:      # move construction / assignment somewhere in the history
+            ops.insert(rng.randrange(len(ops) + 1), "m")
+        if kind == "raw" and rng.random() < 0.3:      # MPIPack(comm, size) with a non-default size: written over from cursor 0
+            ops.insert(0, "n|%d" % rng.choice([0, 1, 5, 40]))
+            ops.insert(1, "k|end")
         if rng.random() < 0.6: ops.append("x")
         if slots is not None:
             ops.append("k|0"); ops += [rtok(i) for i in slots]
@@ -362,7 +403,7 @@ def gen_pks(ctx, table, N):
 def oracle_pks(case, impl, spec):
     """MPIPack semantics judged on the impl's own successive observations: pack at cursor c of bytes b: buffer' = buffer with [c, c+|b|) replaced by b,
     grown (never shrunk) to max(size, c+|b|); cursor' = c+|b|; seek/read/hop leave the buffer alone; reads return what was last written there"""
-    t = case.split(); ops = t[2:]
+    t = toks(case); ops = t[2:]
     sp = spec.split("/")[1:]
     parts = impl.split(";")
     if len(parts) < 2: return "malformed observation"
@@ -384,6 +425,22 @@ def oracle_pks(case, impl, spec):
                 return ("op %d: pack of %d bytes at cursor %d of a %d-byte buffer: buffer must become %s (bytes outside [cursor,cursor+size) unchanged, "
                         "size max(old,cursor+size)=%d), impl has %d bytes %s" % (i, len(b), pos, len(buf), bytes(nb).hex()[:120], len(nb), len(got), got.hex()[:120]))
             buf = bytes(nb); pos += len(b)
+        elif it[0] == "q":
+            b = bytes.fromhex(sp[i][1:]) if sp[i][1:] != "_" else b""
+            nb = bytearray(buf) + bytearray(max(0, pos + len(b) - len(buf))); nb[pos:pos + len(b)] = b
+            got = bytes.fromhex(f[0]) if f[0] != "_" else b""
+            if got != bytes(nb): return "op %d: packing a pack of %d bytes at cursor %d: buffer must become %s, impl has %s" % (i, len(b) - 4, pos, bytes(nb).hex()[:120], got.hex()[:120])
+            buf = bytes(nb); pos += len(b)
+        elif it[0] == "u":
+            if f[0] != it[1]: return "op %d: inner pack read back as %s, written %s" % (i, f[0][:100], it[1][:100])
+            pos = tell
+        elif it[0] == "n":
+            buf = bytes(int(it[1])); pos = 0
+            got = bytes.fromhex(f[0]) if f[0] != "_" else b""
+            if got != buf: return "op %d: MPIPack(comm, %s) holds %s" % (i, it[1], got.hex()[:80])
+        elif it[0] == "m":
+            got = bytes.fromhex(f[0]) if f[0] != "_" else b""
+            if got != buf: return "op %d: after move construction/assignment the pack holds %s, before %s" % (i, got.hex()[:100], buf.hex()[:100])
         elif it[0] in ("z", "g"):
             n = int(it[1]); nb = (buf[:n] + bytes(max(0, n - len(buf)))) if it[0] == "z" else buf + bytes(n)
             got = bytes.fromhex(f[0]) if f[0] != "_" else b""
@@ -407,7 +464,7 @@ def oracle_pks(case, impl, spec):
 # ------------------------------------------------------------------ oracle
 def oracle(case, impl, spec):
     """None if the spec accepts the impl's observation, else a reason"""
-    t = case.split()
+    t = toks(case)
     if impl.startswith("HANG") or impl.startswith("CRASH") or impl.startswith("NOT-RUN"):
         return "impl did not complete: %s" % impl[:120]
     if t[0] in ("coll", "p2p", "dt"):
@@ -445,7 +502,7 @@ def oracle(case, impl, spec):
 
 
 def sig_of(case):
-    t = case.split()
+    t = toks(case)
     if t[0] == "coll":
         extra = ""
         if t[2] in ("gatherv", "scatterv", "allgatherv") and t[1] == "seq":
@@ -484,8 +541,10 @@ def run_impl(ctx, impl, P, cases, tag):
     env = {"OMPI_MCA_rmaps_base_oversubscribe": "1"}
     out = V.run_cases(ctx, cmd, cases, tag=tag, timeout=300 if ctx.quick else 1200, env=env)
     # a timed-out / crashed launch is re-run once alone before it is reported (a hang reproduces, load does not)
+    retried = 0
     for i, o in enumerate(out):
-        if o.startswith("HANG") or o.startswith("CRASH") or o.startswith("NOT-RUN"):
+        if (o.startswith("HANG") or o.startswith("CRASH") or o.startswith("NOT-RUN")) and retried < 6:
+            retried += 1      # bounded: a tree on which many launches hang must not cost hours
             again = V.run_cases(ctx, cmd, [cases[i]], tag=tag + ".again", timeout=120, env=env)
             if again and not (again[0].startswith("HANG") or again[0].startswith("CRASH")):
                 ctx.notes.append("case re-run alone after %s: completed" % o[:40]); out[i] = again[0]
@@ -536,15 +595,23 @@ def run(ctx):
     if os.path.exists(cp):
         corpus = [l.strip() for l in open(cp) if l.strip() and not l.startswith("#")]
     for P in Ps:
-        cs = [c for c in corpus if c.split()[0] == "coll" and c.split()[1] == "mpi" and int(c.split()[6]) == P]
+        cs = [c for c in corpus if toks(c)[0] == "coll" and toks(c)[1] == "mpi" and int(toks(c)[6]) == P]
         if cs:      # corpus witnesses include undefined behaviour (F-C07-4 overruns a heap buffer): own launch, so nothing leaks into the random stream
             groups.append((P, "corpus%d" % P, cs))
-        groups.append((P, "mpi%d" % P, gen_coll(ctx, "mpi", P, 350 if quick else 3000)))
+        rk = ctx.rng("commkind", P)
+        world = gen_coll(ctx, "mpi", P, 350 if quick else 3000)
+        # the same collectives on a duplicate of the world communicator, on a split communicator whose ranks are REVERSED, and on
+        # MPI_COMM_SELF obtained through the converting constructor from Communication<No_Comm> (every rank = a one-process run)
+        mixed = [rk.choice(["", "", "@dup ", "@rev ", "@rev "]) + c for c in world]
+        selfc = ["@self " + c for c in gen_coll(ctx, "mpi", 1, 40 if quick else 300)] if P > 1 else []
+        groups.append((P, "mpi%d" % P, mixed + selfc))
     seqc = [c for c in corpus if c.split()[0] in ("pack", "layout") or (c.split()[0] == "coll" and c.split()[1] == "seq")]
     groups.append((1, "seq", seqc + gen_coll(ctx, "seq", 1, 500 if quick else 5000) + gen_pack(ctx, table, 300 if quick else 3000)))
     p2c = [c for c in corpus if c.split()[0] in ("p2p", "dt", "pks")]
-    groups.append((2, "p2p", p2c + gen_p2p(ctx, 500 if quick else 5000) + gen_dt(ctx, table, 400 if quick else 4000)
-                   + gen_pks(ctx, table, 400 if quick else 4000)))
+    rk = ctx.rng("commkind", "p2p")
+    two = gen_p2p(ctx, 500 if quick else 5000) + gen_dt(ctx, table, 400 if quick else 4000) + gen_pks(ctx, table, 400 if quick else 4000)
+    two = [(rk.choice(["", "", "@rev ", "@dup "]) if not c.startswith("layout") else "") + c for c in two]
+    groups.append((2, "p2p", p2c + two))
     ncase = nviol = ndis = 0
     kinds = {}
     samples = []
@@ -555,11 +622,14 @@ def run(ctx):
         samples += cases[:1]
         for c, m, a in zip(cases, mo, io):
             ncase += 1
-            t = c.split(); k = t[0] + ":" + (t[1] + ":" + t[2] if t[0] == "coll" else t[1] if t[0] in ("p2p",) else t[3] if t[0] == "dt" else "")
+            t = toks(c); k = t[0] + ":" + (t[1] + ":" + t[2] if t[0] == "coll" else t[1] if t[0] in ("p2p",) else t[3] if t[0] == "dt" else "")
             if t[0] == "pks":
                 k = "pks:" + ("hop" if "x" in t else "local") + (":typed-readback" if any(o.startswith("r|") for o in t) else ":bytes")
             kinds[k] = kinds.get(k, 0) + 1
+            kinds["comm:" + comm_of(c)] = kinds.get("comm:" + comm_of(c), 0) + 1
             mm, _, spec = m.partition(" | ")
+            if comm_of(c) == "@self":
+                mm = ";".join([mm] * P); spec = ";".join([spec] * P)
             if P > 1 and t[0] in ("p2p", "dt", "pks"):
                 a2 = ";".join(a.split(";")[:2])      # ranks >= 2 idle
             elif t[0] == "layout":
@@ -614,7 +684,7 @@ def replay(ctx, path):
     io = run_impl(ctx, impl, P, [case], "rimpl")
     mm, _, spec = mo[0].partition(" | ")
     a = io[0]
-    if P > 1 and case.split()[0] in ("p2p", "dt", "pks"): a = ";".join(a.split(";")[:2])
+    if P > 1 and toks(case)[0] in ("p2p", "dt", "pks"): a = ";".join(a.split(";")[:2])
     print("case  :", case); print("ranks :", P); print("impl  :", a); print("model :", mm); print("spec  :", spec)
     r = oracle(case, a, spec)
     print("oracle:", r or "accepts")
